@@ -210,7 +210,9 @@ pub fn gen_token(rng: &mut Rng) -> String {
         6 => format!("\u{1b}%{}", rng.pick(&['G', '@', '8', '\r'])),
         7 => format!("\u{1b}{}{}", rng.pick(&['(', ')']), rng.pick(&['0', 'B', 'U', 'V', 'A', 'x', '\n'])),
         8..=11 => { let q = if rng.chance(1, 3) { "?" } else { "" }; let mid = if rng.chance(1, 6) { *rng.pick(&["\u{8}", "\n", " ", ">", "\r", "\u{7}"]) } else { "" };
-            format!("{}{}{}{}{}", intro(rng), q, params(rng), mid, rng.pick(&finals)) }
+            // now and then the final is a non-ASCII character that merely looks like a digit / letter (it ends the sequence like any unknown final)
+            let fin: char = if rng.chance(1, 12) { *rng.pick(&['\u{ff12}', '\u{b2}', '\u{b9}', '\u{bd}', '\u{663}', '\u{2160}', '\u{ff28}', '\u{e9}', '\u{3042}']) } else { *rng.pick(&finals) };
+            format!("{}{}{}{}{}", intro(rng), q, params(rng), mid, fin) }
         12 => { let q = if rng.chance(1, 2) { "?" } else { "" }; format!("{}{}{}{}", intro(rng), q, params(rng), rng.pick(&['\u{18}', '\u{1a}'])) }
         13 => { let q = if rng.chance(1, 2) { "?" } else { "" }; format!("{}{}{}${}", intro(rng), q, params(rng), rng.pick(&['p', 'x', 'm', 'h', '\r'])) }
         14 | 15 => { let pl: String = (0..rng.below(5)).map(|_| *rng.pick(&["a", ";", "\\", " ", "\u{e9}", "\u{3042}", "\u{1b}x", "\r\n", "\n", "0"])).collect();
